@@ -191,6 +191,11 @@ func c18Build(nonce int64) *c18Shared {
 		s.docs = append(s.docs, tb.Bytes())
 	}
 	s.docs = append(s.docs, c18BigDoc())
+	// imports of versions the catalog does not hold, with max_id equal to the size
+	// of the version it does hold (the substitute must not be written to)
+	s.docs = append(s.docs,
+		[]byte(`$ion_symbol_table::{imports:[{name:"t2",version:7,max_id:6},{name:"t1",version:3,max_id:5}],symbols:["own"]} $10 $15 $16 $21 {$11:$12}`),
+		[]byte(`$ion_symbol_table::{imports:[{name:"t3",version:9,max_id:6}]} $10 $15`))
 	for i := 0; i < 6; i++ {
 		r := c18Rec{Name: fmt.Sprintf("rec%d\x01\x1e%c", i, rune(2+i)), Sym: texts[i], N: int32(i * 1000), M: map[string]string{texts[i]: "w"}, // one key: binary Marshal does not sort maps
 			EmbInner: drive.EmbInner{X: i, Y: texts[i]}, T: ion.MustParseTimestamp("2020-02-29T01:02:03.5+01:00"), Any: []interface{}{i, "s"}}
